@@ -14,7 +14,7 @@ import (
 )
 
 func init() {
-	register("C17", checkC17, "Exact accounting under all interleavings, the in-flight guarantee of Shutdown as a whole and bounded time are NOT decided (schedule exploration). Decided: R17.1 every call through a func-typed field of Server, and through every func-typed field of the package's other structs, is reached only when that very field was tested non-nil on the path or a non-nil value was stored to it (abstract interpretation with path facts; the copied error callback is covered by value flow and by a field invariant: all stores to connection.onErrorFunc store a proven non-nil value and every allocation of connection sets it). R17.2 the unexported shared fields of Server (listener, activeConnections) are only read holding Server.mu and only written holding it exclusively (lock-set analysis). R17.3 each registration of an accepted connection in the server's connection set (recognised by its effect: an insertion into the map-typed field of Server, directly or through helpers, under the constant flags passed) is followed on every path by the go statement whose first deferred function removes it again exactly once on every path and evaluates the close-callback guard exactly once on every path; the rejected-connection path closes the connection before continuing. R17.4 a function registered with context.AfterFunc (or started with go) in serve closes the listener, so cancellation can interrupt a blocked Accept; the resulting accept error is mapped to ErrServerClosed. R17.5 Shutdown sets the shutdown flag before closing the listener. R17.6 in the connection loop the in-flight flag is set before the assembler runs and cleared only after the reply write. R17.7 no method call on the listener field while it can be nil. R17.8 Shutdown's scan: on every back edge of the scan loop new-flag => old-flag and new-flag => not in-flight (edge states of the abstract interpretation), and a connection is closed only where its in-flight flag was read false. R17.9 no return leaves Server.mu held. R17.10 the assembler hands back all replies produced for a read and the connection loop writes them before reading again (C15 R15.3/R15.4). R17.11 = C16 R16.6: nothing on the per-connection path writes package-level state (a data race between connections). R17.12 the write deadline set before writing a reply is computed from time.Now() read after the assembler returned. R17.13 every exported method of Server from which Accept is reached has stored the very listener accepted on into the Server's listener field (the one Shutdown closes) before Accept (store record value = Accept's receiver, structural executed-before). R17.6 also: every path from raising the in-flight flag back to the next Read passes the clearing store.")
+	register("C17", checkC17, "Exact accounting under all interleavings, the in-flight guarantee of Shutdown as a whole and bounded time are NOT decided (schedule exploration). Decided: R17.1 every call through a func-typed field of Server, and through every func-typed field of the package's other structs, is reached only when that very field was tested non-nil on the path or a non-nil value was stored to it (abstract interpretation with path facts; the copied error callback is covered by value flow and by a field invariant: all stores to connection.onErrorFunc store a proven non-nil value and every allocation of connection sets it). R17.2 the unexported shared fields of Server (listener, activeConnections) are only read holding Server.mu and only written holding it exclusively (lock-set analysis). R17.3 each registration of an accepted connection in the server's connection set (recognised by its effect: an insertion into the map-typed field of Server, directly or through helpers, under the constant flags passed) is followed on every path by the go statement whose first deferred function removes it again exactly once on every path and evaluates the close-callback guard exactly once on every path; the rejected-connection path closes the connection before continuing. R17.4 a function registered with context.AfterFunc (or started with go) in serve closes the listener, so cancellation can interrupt a blocked Accept; the resulting accept error is mapped to ErrServerClosed. R17.5 Shutdown sets the shutdown flag before closing the listener. R17.6 in the connection loop the in-flight flag is set before the assembler runs and cleared only after the reply write. R17.7 no method call on the listener field while it can be nil. R17.8 Shutdown's scan: on every back edge of the scan loop new-flag => old-flag and new-flag => not in-flight (edge states of the abstract interpretation), and a connection is closed only where its in-flight flag was read false. R17.9 no return leaves Server.mu held. R17.10 the assembler hands back all replies produced for a read and the connection loop writes them before reading again (C15 R15.3/R15.4). R17.11 = C16 R16.6: nothing on the per-connection path writes package-level state (a data race between connections). R17.12 the write deadline set before writing a reply is computed from time.Now() read after the assembler returned. R17.13 every exported method of Server from which Accept is reached has stored the very listener accepted on into the Server's listener field (the one Shutdown closes) before Accept (store record value = Accept's receiver, structural executed-before). R17.6 also: every path from raising the in-flight flag back to the next Read passes the clearing store. R17.12 also: a write deadline armed before the assembler ran must be re-armed after it returned before the reply is written.")
 }
 
 func checkC17(c *Ctx, r *Report) {
